@@ -529,6 +529,22 @@ def rule_R2(src, ed, lo, hi, fname):
                     ed.insert(toks[e - 1].end, " }", order=4)
                 i = c + 1
                 continue
+        # `|&x| BODY` -> `|__pK| { let x = *__pK; BODY }` (a reference pattern binds the pointee of a Copy value)
+        if (not _skipped(i)) and t.kind == "punct" and t.text == "|" and toks[i - 1].text in ("(", ",", "=", "move") \
+                and toks[i + 1].text == "&" and toks[i + 2].kind == "ident" and toks[i + 3].text == "|":
+            var = toks[i + 2].text
+            body_s = i + 4
+            name = "__p%d" % n
+            n += 1
+            ed.replace(toks[i + 1].pos, toks[i + 2].end, name, rule="R2 %s: closure parameter pattern `&%s`" % (fname, var))
+            if toks[body_s].text == "{":
+                ed.insert(toks[body_s].end, " let %s = *%s; " % (var, name), order=4)
+            else:
+                e = _stmt_end(src, body_s, hi)
+                ed.insert(toks[body_s].pos, "{ let %s = *%s; " % (var, name), order=-4)
+                ed.insert(toks[e - 1].end, " }", order=4)
+            i = body_s
+            continue
         i += 1
 
 
